@@ -146,6 +146,10 @@ func BuildSchemaValidationV31(schema *base.Schema, validationString string, fiel
 						Kind:  yaml.ScalarNode,
 						Value: v,
 					}
+					if specType == "string" {
+						// A member of a string schema is text even when it reads like a number or a boolean
+						node.Tag = "!!str"
+					}
 					schema.Enum = append(schema.Enum, node)
 				}
 			}
@@ -164,6 +168,8 @@ func BuildSchemaValidationV31(schema *base.Schema, validationString string, fiel
 					node := &yaml.Node{
 						Kind:  yaml.ScalarNode,
 						Value: v,
+						// A member of a string schema is text even when it reads like a number or a boolean
+						Tag: "!!str",
 					}
 					schema.Enum = append(schema.Enum, node)
 				}
